@@ -571,6 +571,7 @@ func searchOps(c *core.Ctx, mode string, depth int, ops []opDesc, variant string
 }
 
 func run(c *core.Ctx) {
+	partInterleaved(c)
 	depth := 4
 	if !c.Quick() {
 		depth = 5
@@ -593,6 +594,11 @@ func replay(c *core.Ctx, raw json.RawMessage) {
 		Ops     []int  `json:"ops"`
 	}
 	json.Unmarshal(raw, &cs)
+	var ic ilCase
+	if json.Unmarshal(raw, &ic) == nil && ic.Part == "interleaved" {
+		runInterleaved(c, ic)
+		return
+	}
 	w := newWorkerEnv(cs.Mode)
 	defer w.env.Close()
 	al := alphabet(cs.Mode)
